@@ -32,6 +32,8 @@ def stage_internal(wt, scratch):
         p = os.path.join(scratch, f)
         if os.path.exists(p): os.remove(p)
     shutil.copy(os.path.join(wt, "pure/go.sum"), os.path.join(scratch, "go.sum"))
+    # internal/pipe/pipe.go is `package pure`: demos written as external tests of pure need it there
+    shutil.copy(os.path.join(wt, "internal/pipe/pipe.go"), os.path.join(scratch, "pure", "pipe.go"))
     open(os.path.join(scratch, "go.mod"), "w").write(
         'module github.com/fogfish/golem\n\ngo 1.20\n\nrequire (\n\tgithub.com/fogfish/it v1.0.0\n\tgithub.com/fogfish/it/v2 v2.0.1\n)\n')
 
@@ -63,8 +65,8 @@ def suite(wt, d):
 
 def main():
     for pid in sys.argv[1:]:
-        inc = f"/verif/seeded/_incoming/{pid}"
-        wt = f"/tmp/cw-{pid}"
+        inc = f"{os.environ.get('SEED_INC','/verif/seeded/_incoming')}/{pid}"
+        wt = f"/tmp/cw{os.environ.get('SEED_TAG','')}-{pid}"
         sh(f"git -C /repo worktree remove --force {wt}")
         rc, out = sh(f"git -C /repo worktree add --detach {wt} HEAD")
         assert rc == 0, out
